@@ -129,8 +129,8 @@ func cmdReplay(args []string) int {
 		fmt.Fprintln(os.Stderr, err)
 		return 2
 	}
-	if f.Kind == "LOCKSET" {
-		fmt.Println("lockset finding (no native run):", f.Detail)
+	if f.Kind == "LOCKSET" || f.Kind == "ENGINE" {
+		fmt.Println("engine-observed fact (no native run):", f.Label, f.Detail)
 		return 0
 	}
 	w, err := LoadWorld("/repo", "/verif/harness")
